@@ -4,6 +4,7 @@ import (
 	"errors"
 	"fmt"
 	"strings"
+	"sync"
 	"testing"
 	"time"
 
@@ -470,3 +471,85 @@ func TestC10Cleanup(t *testing.T) {
 }
 
 var _ = peer.ID("")
+
+// TestC10Overlap (real clock): two restarts of the same channel reach the transport overlapping in
+// time (a user restart racing the monitor's, or the responder's restart-existing request), while
+// graphsync takes a moment to confirm each cancel. However they interleave, "any previous transport
+// request for the channel is cancelled before the new one starts": at the end exactly one graphsync
+// request of the channel has not been cancelled, and it is the last one issued.
+func TestC10Overlap(t *testing.T) {
+	vf.Run(t, "C10Overlap", vf.Opts{Bubble: false, DefaultN: 8}, func(c *vf.Case) {
+		r := c.Rng
+		peers := gen.Peers(r, 2)
+		self, other := peers[0], peers[1]
+		f := newTrFix(c, self)
+		v := gen.SimpleVoucher("VT0", "v")
+		initiator := c.Index%2 == 0 // pull initiator / push responder: the two roles that issue the graphsync request
+		chid := datatransfer.ChannelID{Initiator: self, Responder: other, ID: datatransfer.TransferID(1 + r.Intn(1<<20))}
+		mk := func(restart bool) datatransfer.Message {
+			if initiator {
+				m, _ := message.NewRequest(chid.ID, restart, true, &v, dummyCid, gen.AllSelector)
+				return m
+			}
+			m, _ := message.NewResponse(chid.ID, true, false, nil)
+			return m
+		}
+		if !initiator {
+			chid = datatransfer.ChannelID{Initiator: other, Responder: self, ID: chid.ID}
+		}
+		if err := f.tr.OpenChannel(bg, other, chid, dummyLink, gen.AllSelector, nil, mk(false)); err != nil {
+			panic(err)
+		}
+		f.gs.Stall = time.Duration(20+r.Intn(120)) * time.Millisecond // graphsync confirms a cancel after a moment
+		n := 2 + r.Intn(2)
+		gaps := make([]time.Duration, n)
+		for i := range gaps {
+			gaps[i] = time.Duration(r.Intn(60)) * time.Millisecond
+		}
+		ok := c.HangCheck("C10", "overlapping-restarts", 30*time.Second, func() {
+			var wg sync.WaitGroup
+			for i := 0; i < n; i++ {
+				wg.Add(1)
+				go func(i int) {
+					defer wg.Done()
+					time.Sleep(gaps[i])
+					f.tr.OpenChannel(bg, other, chid, dummyLink, gen.AllSelector, nil, mk(true))
+				}(i)
+			}
+			wg.Wait()
+		})
+		if ok {
+			time.Sleep(50 * time.Millisecond)
+			cancelled := map[graphsync.RequestID]bool{}
+			var issued []graphsync.RequestID
+			for _, gc := range f.gs.Calls() {
+				switch gc.Op {
+				case "request":
+					issued = append(issued, gc.ID)
+				case "cancel":
+					cancelled[gc.ID] = true
+				}
+			}
+			live := 0
+			for _, id := range issued {
+				if !cancelled[id] {
+					live++
+				}
+			}
+			if live != 1 {
+				c.Violation("C10", fmt.Sprintf("overlapping-restarts-left-%d-live-requests", live), "%d overlapping restarts (cancel takes %v): %d graphsync requests issued, %d never cancelled - want exactly the newest one", n, f.gs.Stall, len(issued), live)
+			} else if cancelled[issued[len(issued)-1]] {
+				c.Violation("C10", "newest-request-cancelled", "the newest graphsync request of the channel was cancelled, an older one is still live")
+			}
+			c.Count("overlapping_restarts", n)
+			c.Count("requests_issued_under_overlap", len(issued))
+		}
+		c.Mark("initiator=%v n=%d", initiator, n)
+		c.NonTrivial()
+		if c.Index < 2 {
+			c.Sample(map[string]any{"engine": "overlapping restarts (real clock)", "we_initiated": initiator, "restarts": n, "cancel_takes": f.gs.Stall.String()})
+		}
+		f.gs.Stall = 0
+		c.HangCheck("C10", "transport-shutdown", 20*time.Second, func() { f.tr.Shutdown(bg) })
+	})
+}
